@@ -1,0 +1,69 @@
+//go:build verif
+
+package cloudprovider
+
+// Second hook file for the C12 correspondence harness (/verif): an exact virtual clock.
+// handleInstanceInfo and Peek read time.Now() directly.  So that the harness can place a refresh
+// tick exactly on an idle / expiry boundary, the stamps those two functions have just written are
+// moved from the wall clock onto the harness's virtual time axis right after the call.
+// Add-only; compiled only with -tags verif.
+
+import (
+	"sort"
+	"time"
+
+	"github.com/atlassian/gostatsd"
+)
+
+// verifWallThreshold separates wall-clock stamps (this century) from virtual ones (the harness
+// keeps virtual time within a few days of the Unix epoch).
+const verifWallThreshold = int64(1e18) // 2001-09-09
+
+// VerifRebaseStamps rewrites every holder stamp that is still a wall-clock reading: a reading w
+// becomes vnow + floor((w - t0)/unit)*unit, where t0 is the wall-clock time the harness read just
+// before the call that wrote the stamp.  If all periods are multiples of unit and less than unit
+// of real time has passed since t0 (the caller checks that), this is exactly
+// "virtual now + the period the code added".  It returns the number of stamps rewritten and
+// false if a reading lies before t0 (the wall clock was set back).
+func (ccp *CachedCloudProvider) VerifRebaseStamps(t0 time.Time, vnow int64, unit time.Duration) (int, bool) {
+	ccp.rw.Lock()
+	defer ccp.rw.Unlock()
+	base, u := t0.UnixNano(), unit.Nanoseconds()
+	n, ok := 0, true
+	conv := func(w int64) int64 {
+		d := w - base
+		if d < 0 {
+			ok = false
+			d = 0
+		}
+		n++
+		return vnow + d/u*u
+	}
+	for _, h := range ccp.cache {
+		if w := h.expires.UnixNano(); w > verifWallThreshold {
+			h.expires = time.Unix(0, conv(w))
+		}
+		if w := h.lastAccess(); w > verifWallThreshold {
+			h.lastAccessNano = conv(w)
+		}
+	}
+	return n, ok
+}
+
+// VerifStamp is the time state of one cache entry.
+type VerifStamp struct {
+	IP              gostatsd.Source
+	Expires, Access int64 // UnixNano
+}
+
+// VerifStamps returns the stamps of all holders, sorted by IP.
+func (ccp *CachedCloudProvider) VerifStamps() []VerifStamp {
+	ccp.rw.RLock()
+	defer ccp.rw.RUnlock()
+	out := make([]VerifStamp, 0, len(ccp.cache))
+	for ip, h := range ccp.cache {
+		out = append(out, VerifStamp{IP: ip, Expires: h.expires.UnixNano(), Access: h.lastAccess()})
+	}
+	sort.Slice(out, func(i, j int) bool { return out[i].IP < out[j].IP })
+	return out
+}
